@@ -5,8 +5,11 @@ import (
 	"fmt"
 	"os"
 	"strings"
+	"sync"
 	"testing"
 	"time"
+
+	"github.com/elastic/go-txfile/internal/vfs"
 
 	"github.com/elastic/go-txfile/txerr"
 )
@@ -740,4 +743,135 @@ func govcCommitFault(t *testing.T, p *govcParams) govcOutcome {
 		}
 	}
 	return govcOutcome{detail: "no injected failure (Truncate/MMap/Sync/WriteAt/Size, call 1..8, grown and shrunk files) left the forbidden state"}
+}
+
+// ---------------------------------------------------------------------------
+// scenario writerbatch: drive the bare writer with batches that contain two
+// writes to one page; every page must receive its writes in schedule order.
+// ---------------------------------------------------------------------------
+
+type govcRecTarget struct {
+	mu  sync.Mutex
+	log []string // "page:tag"
+}
+
+func (r *govcRecTarget) WriteAt(p []byte, off int64) (int, error) {
+	r.mu.Lock()
+	defer r.mu.Unlock()
+	r.log = append(r.log, fmt.Sprintf("%d:%d", off/64, p[0]))
+	return len(p), nil
+}
+
+func (r *govcRecTarget) Sync(vfs.SyncFlag) error { return nil }
+
+func init() { govcScenarios["writerbatch"] = govcWriterBatch }
+
+type govcFailTarget struct {
+	mu        sync.Mutex
+	failSync  int // fail the k-th Sync
+	failWrite int // fail the k-th WriteAt
+	syncs     int
+	writes    int
+	executed  []string
+}
+
+func (r *govcFailTarget) WriteAt(p []byte, off int64) (int, error) {
+	r.mu.Lock()
+	defer r.mu.Unlock()
+	r.writes++
+	if r.writes == r.failWrite {
+		return 0, errGovcInjected
+	}
+	r.executed = append(r.executed, fmt.Sprintf("W%d", off/64))
+	return len(p), nil
+}
+
+func (r *govcFailTarget) Sync(vfs.SyncFlag) error {
+	r.mu.Lock()
+	defer r.mu.Unlock()
+	r.syncs++
+	if r.syncs == r.failSync {
+		return errGovcInjected
+	}
+	r.executed = append(r.executed, "S")
+	return nil
+}
+
+// govcWriterSticky: a failing write or sync makes the writer skip I/O until a
+// sync with the reset flag was answered; after that it must work again.
+func govcWriterSticky(p *govcParams) govcOutcome {
+	for _, mode := range []string{"sync", "write"} {
+		target := &govcFailTarget{}
+		if mode == "sync" {
+			target.failSync = 1
+		} else {
+			target.failWrite = 1
+		}
+		var w writer
+		w.Init(target, 64, SyncData)
+		done := make(chan struct{})
+		go func() { defer close(done); w.Run() }()
+		ws1 := newTxWriteSync()
+		w.Schedule(ws1, 5, []byte{1})
+		w.Sync(ws1, syncDataOnly|syncResetErr) // last sync of the failing "transaction"
+		err1 := ws1.Wait()
+		ws2 := newTxWriteSync()
+		w.Schedule(ws2, 6, []byte{2})
+		w.Sync(ws2, syncDataOnly|syncResetErr)
+		err2 := ws2.Wait()
+		w.Stop()
+		<-done
+		if err1 == nil {
+			return govcOutcome{detail: "injected failure was not reported: " + mode}
+		}
+		if err2 != nil {
+			return govcOutcome{reproduced: true, detail: fmt.Sprintf("after a failing %s answered by a reset sync, the next handle still fails with %v although no further I/O failed (executed: %v)", mode, err2, target.executed)}
+		}
+	}
+	return govcOutcome{detail: "writer recovered after the reset sync in both modes"}
+}
+
+func govcWriterBatch(t *testing.T, p *govcParams) govcOutcome {
+	if strings.Contains(p.Label, "reset-sync") || strings.Contains(p.Label, "sticky") || strings.Contains(p.Label, "error-kept") {
+		return govcWriterSticky(p)
+	}
+	for n := 2; n <= 40; n++ { // batch sizes
+		for dupA := 0; dupA < n; dupA++ {
+			dupB := n - 1 // the last message rewrites the page of message dupA
+			if dupA == dupB {
+				continue
+			}
+			target := &govcRecTarget{}
+			var w writer
+			w.Init(target, 64, SyncNone)
+			ws := newTxWriteSync()
+			// queue the whole batch before the writer loop starts, so that it is one command
+			ids := make([]PageID, n)
+			for i := 0; i < n; i++ {
+				ids[i] = PageID(100 - i) // descending: the sort has work to do
+			}
+			ids[dupB] = ids[dupA]
+			for i := 0; i < n; i++ {
+				w.Schedule(ws, ids[i], []byte{byte(i), 0, 0, 0})
+			}
+			w.Sync(ws, syncDataOnly)
+			done := make(chan struct{})
+			go func() { defer close(done); w.Run() }()
+			ws.Wait()
+			w.Stop()
+			<-done
+			// last write to the duplicated page must be the later scheduled one
+			last := ""
+			for _, e := range target.log {
+				if strings.HasPrefix(e, fmt.Sprintf("%d:", ids[dupA])) {
+					last = e
+				}
+			}
+			want := fmt.Sprintf("%d:%d", ids[dupA], dupB)
+			if last != want {
+				return govcOutcome{reproduced: true, detail: fmt.Sprintf("batch of %d writes, messages %d and %d both target page %d: the page ends with the contents of message %s, scheduled order demands %s (write log %v)", n, dupA, dupB, ids[dupA], last, want, target.log)}
+			}
+		}
+	}
+	return govcOutcome{detail: "every batch shape (2..40 messages, one duplicated page) kept the per-page write order"}
 }
